@@ -486,11 +486,11 @@ type idxAnalyzer struct {
 
 // fieldDelta: how much a method advances a cursor field of its receiver, at least.
 type fieldDelta struct {
-	okD   int  // … on exits whose boolean last result is not the literal false
-	hasOK bool
-	uncond  int    // f' - f >= uncond on every exit (valid if hasU)
+	okD     int // … on exits whose boolean last result is not the literal false
+	hasOK   bool
+	uncond  int // f' - f >= uncond on every exit (valid if hasU)
 	hasU    bool
-	cond    int    // … when f < len(condSeq) held at entry
+	cond    int // … when f < len(condSeq) held at entry
 	hasC    bool
 	condSeq string // field name of the text
 }
